@@ -49,13 +49,26 @@ def gen_scenario(rng, index):
     mix = rng.choice(["recompile-heavy", "mixed", "construct-heavy", "call-heavy"])
     if family == "race":
         n_shared, n_threads, max_ops, mix = 1, rng.choice([2, 2, 2, 3, 4]), 2, rng.choice(["race", "race", "recompile-heavy", "call-vs-recompile",
-                                                                                          "call-vs-recompile", "call-vs-recompile"])
+                                                                                          "call-vs-recompile", "call-vs-recompile", "call-storm"])
+        if mix == "call-storm":
+            n_shared = 2
     if family == "cold":
         n_shared, n_threads, max_ops, mix = 0, rng.choice([2, 2, 3, 4]), 2, "cold"
     shared = [rng.randrange(n_valid) for _ in range(n_shared)]
     th = []
     for _t in range(n_threads):
         ops = []
+        if mix == "call-storm":
+            # nothing but calls, on shared and private evaluators, under dense switching: shared scratch state on the evaluation path
+            if rng.random() < 0.5:
+                ops.append({"op": "new", "t": rng.randrange(n_valid)})
+            for _ in range(rng.randint(3, 8)):
+                if rng.random() < 0.7 or not ops:
+                    ops.append({"op": "call", "s": rng.randrange(n_shared), "f": gen.gen_fields(rng, progs[rng.randrange(n_valid)], ascii_only=True, p_missing=0.0)})
+                else:
+                    ops.append({"op": "pcall", "f": gen.gen_fields(rng, progs[rng.randrange(n_valid)], ascii_only=True, p_missing=0.0)})
+            th.append(ops)
+            continue
         if mix == "call-vs-recompile":
             # callers hammer the shared evaluator while others recompile it
             if _t % 2 == 0:
@@ -86,12 +99,16 @@ def gen_scenario(rng, index):
     pk = rng.choice(["bernoulli", "bernoulli", "targeted", "targeted", "targeted", "pct", "park", "park"])
     if family == "race" and rng.random() < 0.6:
         pk = rng.choice(["targeted", "park", "park"])
+    if family == "race" and mix == "call-storm":
+        pk = "bernoulli"
     if family == "cold":
         # first-use races: one thread should get well ahead of the others before they start
         pk = rng.choice(["pct", "pct", "bernoulli", "targeted", "park"])
     if pk == "bernoulli":
         # every switch costs two OS context switches: keep the dense policy for the small 'race' workloads
         p = rng.choice([0.3, 0.03, 0.003]) if family == "race" else rng.choice([0.03, 0.003, 0.0003, 0.0003])
+        if mix == "call-storm":
+            p = rng.choice([0.5, 0.3, 0.1])
         policy = {"kind": "bernoulli", "p_line": p, "p_hot": p}
     elif pk == "targeted":
         policy = {"kind": "targeted", "p_line": rng.choice([0.0005, 0.005]), "p_hot": rng.choice([0.1, 0.3, 0.5])}
